@@ -77,8 +77,12 @@ def finish(ck: Checker, t0: float, seed: int, extra_cov=None) -> int:
     }
     cov = {
         'explanation': (
-            'Static rule checking over the ast of /repo/cirbo (no repository code is '
-            'imported or executed). Rules applied: '
+            'Static analysis of the syntax trees of /repo/cirbo: nothing is imported from the repository and no '
+            'repository dependency is needed. Two kinds of rule: (1) table cross-checks and structural (shape, '
+            'who-may-write, guard-before-write) rules over the tree; (2) folds -- the analyser\'s own evaluator '
+            'instantiates a function of the tree on small model states (model circuits, truth tables, call histories) '
+            'and an independent oracle judges the result; a fold covers the bounded family named in its text and in '
+            'the assumptions, not all inputs. Rules applied: '
             + ' | '.join(f'{k}: {v}' for k, v in ck.rules_applied.items())
         ),
         'obligations': n_obl,
@@ -96,7 +100,10 @@ def finish(ck: Checker, t0: float, seed: int, extra_cov=None) -> int:
         'files_analysed': files,
         'modules_parsed': len(repo.modules),
         'known_findings_reported': [o.to_json() for o, _ in listed],
-        'exhaustive': True,
+        # complete enumeration holds for the rule instances found in the tree; a run that also folded functions over a
+        # seeded / bounded family of model states did not enumerate *that* space completely
+        'exhaustive': not any(('bounded' in a or 'seeded' in a) for a in ck.assumptions),
+        'rule_instances_enumerated_completely': True,
     }
     cov.update(ck.notes)
     if extra_cov:
